@@ -74,10 +74,11 @@ def run(tier):
     )
     dump = chk.work / "hist"
     try:
-        res = tlc.run("Gettsim", cfg.name, workdir=chk.work, workers=16, dump=dump, timeout=2400)
+        res = tlc.run("Gettsim", cfg.name, workdir=chk.work, workers=16, dump=dump, timeout=2400, coverage=True)
     finally:
         cfg.unlink(missing_ok=True)
     chk.add_mc(res, "Gettsim")
+    chk.require_actions(res, 4, "Gettsim (SetUp, Reform, Compute, Vectorize)")
     states = tlaval.read_dump(str(dump) + ".dump")
     Path(str(dump) + ".dump").unlink()
     full = [s["hist"] for s in states if len(s["hist"]) == (4 if quick else 5) and s["hist"][-1]["k"] == "compute"]
